@@ -17,6 +17,7 @@ package outlier
 import (
 	"errors"
 	"fmt"
+	"reflect"
 	"sync"
 	"time"
 
@@ -57,11 +58,11 @@ type Recycler struct {
 	resource string
 	interval time.Duration
 	status   map[string]bool
-	// forRule is the rule the schedule in status belongs to, epoch its number: timers started under a rule
-	// that has been replaced or cleared since must not act on the nodes of the rule in force.
-	forRule *Rule
-	epoch   uint64
-	mtx     sync.Mutex
+	// epoch numbers the schedule in status: the rule manager starts a new one (voidRecycleSchedule) when the
+	// rule of the resource is removed or replaced by one with another recycle interval or other breakers.
+	// Timers started under an earlier epoch must not act on the nodes of the rule in force.
+	epoch uint64
+	mtx   sync.Mutex
 }
 
 func getRecyclerOfResource(resource string) *Recycler {
@@ -79,16 +80,6 @@ func getRecyclerOfResource(resource string) *Recycler {
 	// one that kept the interval of the rule it was created under ignored every later load.
 	rule := getOutlierRuleOfResource(resource)
 	recycler.mtx.Lock()
-	if rule != recycler.forRule {
-		// Another rule (or none) is in force than the one the pending recycle timers were started under: they
-		// are void - a timer of the replaced rule removed the node breaker of the rule in force after the OLD
-		// interval, and a status entry that outlived its rule kept a node ejected later from ever being
-		// scheduled. Nodes that are still ejected are scheduled again, under the rule in force, by the next
-		// request that finds them ejected.
-		recycler.forRule = rule
-		recycler.epoch++
-		recycler.status = make(map[string]bool)
-	}
 	if rule == nil {
 		logging.Error(errors.New("nil outlier rule"), "Nil outlier rule in getRecyclerOfResource()")
 	} else {
@@ -100,6 +91,33 @@ func getRecyclerOfResource(resource string) *Recycler {
 	}
 	recycler.mtx.Unlock()
 	return recycler
+}
+
+// voidRecycleSchedule is called by the rule manager after it has removed the rule of a resource or replaced it
+// by one under which the pending recycles no longer hold (see sameRecycling): a timer of the replaced rule
+// removed the node breaker of the rule in force after the OLD interval, and a status entry that outlived its
+// rule kept a node that was ejected later from ever being scheduled. Nodes that are still ejected are
+// scheduled again, under the rule in force, by the next request that finds them ejected.
+func voidRecycleSchedule(resource string) {
+	recyclerMutex.Lock()
+	recycler := recyclers[resource]
+	recyclerMutex.Unlock()
+	if recycler == nil {
+		return
+	}
+	recycler.mtx.Lock()
+	recycler.epoch++
+	recycler.status = make(map[string]bool)
+	recycler.mtx.Unlock()
+}
+
+// sameRecycling reports whether the recycle schedule made under rule a still holds under rule b: both exist,
+// recycle after the same interval and build the same node breakers.
+func sameRecycling(a, b *Rule) bool {
+	if a == nil || b == nil {
+		return false
+	}
+	return a.RecycleIntervalS == b.RecycleIntervalS && reflect.DeepEqual(a.Rule, b.Rule)
 }
 
 func (r *Recycler) scheduleNodes(nodes []string) {
@@ -128,9 +146,7 @@ func (r *Recycler) recover(node string) {
 func (r *Recycler) recycle(node string, epoch uint64) {
 	r.mtx.Lock()
 	defer r.mtx.Unlock()
-	if epoch != r.epoch || getOutlierRuleOfResource(r.resource) != r.forRule {
-		// started under a rule that is no longer the one in force (whether or not a request has made the
-		// recycler notice since)
+	if epoch != r.epoch {
 		return
 	}
 	if v, ok := r.status[node]; ok && !v {
